@@ -27,7 +27,8 @@ def main(chk):
     pairs = [(0, 0), (0, 1), (3, 0), (1, 0), (2, 4)] if quick else [(a, b) for a in range(5) for b in range(5)]
     rng = random.Random(chk.seed + 51)
     chk.trusted += ['clang lowering validated per run per contact model', 'irsym + z3', 'the point-triangle kernel is replaced by its contract: u+v+w=1, u,v,w>=0, d2=|p-(ua+vb+wc)|^2 (the contract itself is the subject of C05)']
-    chk.assumptions += ['cut-offs, l_min, strengths > 0; generic position; the two cut-offs differ (quick: adhesion > repulsion; thorough: both orders)', 'forces are examined for one (node, face) pair starting from zero force accumulators']
+    chk.assumptions += ['cut-offs, l_min, strengths > 0; generic position; the two cut-offs differ (quick: adhesion > repulsion; thorough: both orders)', 'forces are examined for one (node, face) pair starting from zero force accumulators',
+                        'every cell type defines the three face types (apical, lateral, basal) that the polarisation code can label a face with (a type with fewer is the open finding C08/face-type-index)']
     chk.bounds = {'contact models': models, 'cell type pairs (node cell, face cell)': [(TYPES[a], TYPES[b]) for a, b in pairs], 'pair': 'one node of cell 1 against one face of cell 2; all geometry of the pair symbolic',
                   'outside': 'accumulation over many pairs under threads (C15), broad phase (C06), same-cell filtering (done by the broad-phase loop)'}
     tasks = []
@@ -41,7 +42,7 @@ def main(chk):
         sc = api.Session(ir, mode='ieee'); native = api.Native(nat)
         for k in range(20 if quick else 60):
             din = rand_din(rng)
-            iin = [rng.randrange(5), rng.randrange(5), rng.randrange(4), 0, 2, rng.randrange(2), 0]
+            iin = [rng.randrange(5), rng.randrange(5), rng.randrange(4), 0, 3, rng.randrange(2), 0]
             r = sc.run('h_c07_pair', din, iin); q = native.call('h_c07_pair', din, iin)
             nval += 1
             if r.status != 'ok' or r.iout != q['i'] or len(r.dout) != len(q['d']) or not all(api.same_double(a, b) for a, b in zip(r.dout, q['d'])):
@@ -55,7 +56,7 @@ def main(chk):
         ir, nat = builds[cm]
         V = {n: S.var(n) for n in DN}
         din = [V[n] for n in DN]
-        iin = [t1, t2, 1, 3, 2, 1, 0]
+        iin = [t1, t2, 1, 3, 3, 1, 0]
         calls = {}
         contracts = []
         def kernel_stub(it, args):
@@ -269,7 +270,7 @@ def replay(builds, natives, cm, types, model, name=''):
     if not model: return {'reproduced': False, 'what': 'no model'}
     if cm not in natives: natives[cm] = api.Native(builds[cm][1])
     din = [float(Fraction(model.get(n, 1 if n in ('cut_adh', 'cut_rep', 'lmin', 'k_adh', 'k_rep') else 0))) for n in DN]
-    iin = [types[0], types[1], 1, 3, 2, 1, 0]
+    iin = [types[0], types[1], 1, 3, 3, 1, 0]
     q = natives[cm].call('h_c07_pair', din, iin)
     if q['status'] != 0 or len(q['d']) < 32: return {'reproduced': False, 'what': 'native run failed', 'din': din, 'iin': iin}
     d = q['d']
